@@ -150,7 +150,11 @@ where
                 self.inner.restore_active_blob().await?;
             },
             OperationType::TryDumpBlobIndexes => {
-                self.try_run_old_blob_indexes_dump_task().await;
+                if !self.try_run_old_blob_indexes_dump_task().await {
+                    // Dump task is already running and it can miss the blobs closed after its start.
+                    // Request should not be lost, so repeat it later
+                    self.defer_blob_indexes_dump().await?;
+                }
             },
             OperationType::TryFsyncData => {
                 self.try_run_fsync_task().await;
@@ -232,7 +236,10 @@ where
                 } else {
                     // The dump procedure is already running, but this does not guarantee that the dump for the desired blob will be made in it. 
                     // Therefore, we defer the dump procedure once more
-                    self.deferred_index_dump_info = Some(Box::new(DeferredEventData::new()));
+                    let deferred = Box::new(DeferredEventData::new());
+                    let next_deadline = deferred.next_deadline(min, max);
+                    self.deferred_index_dump_info = Some(deferred);
+                    self.update_deadline(next_deadline);
                 }
             } else {
                 let next_deadline = deferred.next_deadline(min, max);
